@@ -62,6 +62,15 @@ CHECKS.update({
                 text="Containers.tla models SearchDataItem links, the insertion log, DEPQ-backed queues as bags of (item, key) entries with optional maxlen, RefillQueue and the dual-queue lazy invalidation loop exactly as the code performs them, every operation returning the set of outcomes the unspecified tie-break allows. ContainersMC.tla explores every operation history up to depth 3-4 over small alphabets (insert with/without hint, re-assigned characteristics, clear, refill, best-interval requests, lookups; single and dual queue; bounded and unbounded) checking ordering, links, count, bounds and lookup in every state; wrong hints (outside the precondition) are refuted as a negative control. Every history of maximal depth is replayed on the real SearchData/SearchDataDualQueue and validated by ContainersTrace.tla together with long random histories (random doubles, many equal keys, bounded queues) and the stand-alone CharacteristicsQueue: each returned item must be explained by a maximal (dual: maximal still-current) entry in at least one candidate state, and the traversal, links, count, last item and covering-interval lookup observed after every operation must match."),
 })
 
+CHECKS.update({
+    "C15": dict(level="model_checking", design="4/C15", note="TLC 1.8.0/SANY/CommunityModules; the Q kernel; the recorder (values encoded exactly); evaluation points come from a fixed pool of 4 points per (family, member) so that keys repeat",
+                technique="TLC enumeration of all short construct/evaluate histories (ProblemReg.tla) replayed on the real problem classes + TLC trace validation with one memo per (family, member, function, point) shared across histories (ProblemTrace.tla)",
+                text="ProblemReg.tla is the sequential specification: the value of member (f, m) at point p is fixed by its first evaluation and every later evaluation of that key - by any instance, after any history of constructions and evaluations - must return it; TLC enumerates all histories up to depth 4 (thorough: 5) over two families x two members x three points, and they are replayed on the real classes for family pairs (all pairs of the cheap families; pairs with several GKLS dimensions and Grishagin instances alive together), evaluating through fresh arrays and through one reused coordinate buffer overwritten in place; long random histories keep up to 14 instances of all eleven family variants alive, incl. the constraint functions of StronginC3. ProblemTrace.tla keeps one memo for all histories of a file and requires bit-equal values, an unmodified point, the supplied holder returned with the value in it, and no exception."),
+    "C18": dict(level="other", design="4/C18", note="the derivative bounds hold for the formulas built from the shipped coefficient tables (Hill: trigonometric sum; Shekel: sum of reciprocals of quadratics) and are derived by TLC in exact arithmetic; the code is tied to the formula through the observed values, each allowed a rounding error of 1e-11; the certificate search (Python) is untrusted - it can only cause 'undecided'; TLC 1.8.0, CommunityModules, Q kernel",
+                technique="TLC check of metadata records of every family member (ProblemTrace.tla) + TLC-checked certificates per table row (Cert1D.tla: Taylor bounds from coefficient-derived derivative bounds, convexity / end-point monotonicity + covering, mean-value witness) with refutation of deliberately corrupted rows",
+                text="Metadata: every member of every family (Hill and Shekel 0..999, Shekel4 1..3, Grishagin 1..100, GKLS 2..5 x 1..100, Rastrigin and XSquared 1..8, StronginC3) is constructed in shuffled order and TLC checks dimension = lengths of names and bounds, lower < upper, one objective, known optimum inside the box. Tables: for each row of the 2 x 1000 published (minimum, maximum, Lipschitz constant) tables a certificate is built from values observed through Problem.Calculate (the object living among sibling instances) and checked by Cert1D.tla in exact rational arithmetic with bounds on the first four derivatives derived from the shipped coefficient tables: the global minimum (maximum) lies within 1e-4 of the tabulated value, every global minimiser lies within 1e-4 of the range of the tabulated location (strict convexity or end-point monotonicity on a neighbourhood, certified sign change of f', and a covering whose cell-wise lower bounds exclude everything else), and the constant is within 0.1% of max |f'| (mean-value witness below, cell-wise upper bound above). A clause is violated only if a refutation certificate checks (an observed value outside the tolerance, f' of one certified sign around the tabulated location, a witness slope above / an upper bound below the tabulated constant); rows neither accepted nor refuted are counted as undecided. Ten deliberately corrupted rows per run must be refuted (binding demonstration)."),
+})
+
 NOT_YET = {
 }
 
